@@ -95,7 +95,18 @@ def shard_main(args) -> int:
 
         ctx.rec.notes["physt_path"] = os.path.dirname(physt.__file__)
         mod = load_prop(args.prop)
-        mod.run(ctx)
+        from . import reach
+
+        reach_on = reach.install(os.path.dirname(physt.__file__)) if not getattr(mod, "NO_REACH", False) else False
+        try:
+            mod.run(ctx)
+        finally:
+            if reach_on:
+                rep = reach.report(args.prop)
+                reach.uninstall()
+                ctx.rec.notes["anchor_reach_shard0" if args.shard == 0 else "anchor_reach_other"] = rep["functions_entered_per_anchor_range"]
+                ctx.rec.notes["anchor_ranges"] = rep["anchor_ranges"] if args.shard == 0 else 0
+                ctx.rec.notes["functions_entered_in_physt"] = {str(args.shard): rep["functions_entered_in_physt"]}
     except Exception as e:
         ctx.rec.inconclusive.append(f"shard {args.shard} crashed: {type(e).__name__}: {e}")
         ctx.rec.monitor_error("shard", e)
@@ -244,6 +255,12 @@ def finish(prop, tier, seed, mod, merged, findings, wall, cfg, work, replay=Fals
     floor = cfg["floor"]
     if not replay and distinct < floor:
         reasons.append(f"only {distinct} distinct non-trivial cases (floor {floor})")
+    reach_all: Dict[str, int] = {}
+    for key in ("anchor_reach_shard0", "anchor_reach_other"):
+        for k, v in (merged["notes"].get(key) or {}).items():
+            reach_all[k] = reach_all.get(k, 0) + int(v)
+    if reach_all and not replay and not any(reach_all.values()):
+        reasons.append("none of the property's anchored code ranges was executed by the workload")
     total_mon = sum(merged["monitor_evals"].values()) or 1
     nerr = sum(merged["monitor_errors"].values())
     if nerr > max(3, 0.01 * total_mon):
@@ -281,7 +298,9 @@ def finish(prop, tier, seed, mod, merged, findings, wall, cfg, work, replay=Fals
         "monitor_errors": merged["monitor_errors"],
         "monitor_error_samples": merged["monitor_error_samples"][:4],
         "classes": merged["classes"],
-        "notes": merged["notes"],
+        "anchor_reach": {"ranges": len(reach_all), "ranges_reached": sum(1 for v in reach_all.values() if v),
+                         "functions_entered_per_anchor_range (def line within the range +-45 lines, summed over shards)": reach_all},
+        "notes": {k: v for k, v in merged["notes"].items() if not k.startswith("anchor_reach_")},
         "known_findings_seen": {k: v["count"] for k, v in known_hits.items()},
         "violation_records": merged["record_count"],
         "violation_samples": [{k: v for k, v in r.items() if k != "case"} for r in violations[:5]],
